@@ -204,6 +204,10 @@ def run(tier):
         drv = run_forked(driver.conformance, 900 if tier == 'quick' else 7200, tier, random.Random(seed() + 190))
     except Hang as e:
         drv = {'states': 0, 'events': 0, 'deviations': {'DRIVER.run_did_not_terminate (%s)' % e: 1}, 'first_deviation': {}}
+    except Machinery as e:
+        # the driver is outside the listed properties: a failure of its own machinery is reported, it does not fail the C19 check
+        drv = {'states': 0, 'events': 0, 'deviations': {}, 'first_deviation': {}, 'not_run': str(e)[:300]}
+        print('NOTE driver conformance (outside the listed properties): not run (%s)' % str(e)[:200])
     if drv['deviations']:
         print('NOTE driver conformance (outside the listed properties): the real main deviates from Driver.tla: %s' % drv['deviations'])
     rejects, stats = validate('traces/RenderTrace.tla', events, 'c19', per_shard=400)
